@@ -37,7 +37,51 @@ class FileDomain(EvDomain):
         if path[-1] == 'm_mode':
             v = self.atom('mode'); return Enum('tulz::File::Mode::' + v) if v is not None else None
         if path[-1] == 'm_file': return Sym('m_file')
+        d_ = self.derived_from_mode(path[-1])
+        if d_ is not None: return d_
         return None
+
+    _derived = None
+
+    def derived_from_mode(self, name):
+        """a bool member that open() sets from the mode alone (`m_textRead = mode == ReadText || mode == AppendText`), evaluated for the
+        mode of this row: what the member holds whenever the file is open in that mode"""
+        facts = getattr(self, '_facts', None) or FileDomain._facts_all
+        v = self.atom('mode')
+        if facts is None or v is None: return None
+        if FileDomain._derived is None:
+            FileDomain._derived = {}
+            for g in facts.fns:
+                if g.d.get('class') != F or g.qname.split('::')[-1] != 'open': continue
+                mp = {p_['decl'] for p_ in g.d['params'] if p_['ctype'].endswith('File::Mode')}
+                for n in g.nodes():
+                    if n.k == 'binop' and n.op == '=' and n.n('lhs') is not None and n.n('lhs').k == 'member' and n.n('lhs').field and (n.n('lhs').type or '').replace('const ', '') == 'bool':
+                        FileDomain._derived.setdefault(n.n('lhs').name, []).append((n.n('rhs'), mp))
+        srcs = FileDomain._derived.get(name)
+        if not srcs or len(srcs) != 1: return None
+        rhs, mp = srcs[0]
+        def ev(e):
+            while e is not None and e.k in ('cast', 'paren') and e.n('sub') is not None: e = e.n('sub')
+            if e is None: return None
+            if e.k == 'ref' and e.dk == 'enum': return ('E', (e.qname or e.name).split('::')[-1])
+            if e.k == 'ref' and e.decl in mp: return ('E', v)
+            if e.k == 'member' and e.field and e.name == 'm_mode': return ('E', v)
+            if e.k == 'bool': return bool(e.v)
+            if e.k == 'unop' and e.op == '!':
+                s_ = ev(e.n('sub')); return (not s_) if isinstance(s_, bool) else None
+            if e.k == 'binop' and e.op in ('==', '!='):
+                l, r = ev(e.n('lhs')), ev(e.n('rhs'))
+                if isinstance(l, tuple) and isinstance(r, tuple): return (l == r) if e.op == '==' else (l != r)
+                return None
+            if e.k == 'binop' and e.op in ('||', '&&'):
+                l, r = ev(e.n('lhs')), ev(e.n('rhs'))
+                if isinstance(l, bool) and isinstance(r, bool): return (l or r) if e.op == '||' else (l and r)
+                return None
+            return None
+        r_ = ev(rhs)
+        return r_ if isinstance(r_, bool) else None
+
+    _facts_all = None
 
     def init_param(self, fn, p):
         if p['ctype'].endswith('File::Mode'):
@@ -97,7 +141,7 @@ def run(facts, rep, tier):
         if not c: rep.anchor_missing(f'{F}::{name}', 'not found')
         fns[name] = c
     if rep.broken: return
-    FileDomain.owning = False
+    FileDomain.owning = False; FileDomain._derived = None; FileDomain._facts_all = facts
     fc = facts.cls(F) or {}
     hf = [x for x in fc.get('fields', []) if x['name'] == 'm_file']
     owner_ok = None
